@@ -85,8 +85,15 @@ C01_Clause(c, aux, o) ==
             /\ (Len(fa) = 1 /\ IsIn(o) /\ o.pre.stash = {} /\ o.post.ep = o.pre.ep /\ o.ev.m.t = "D")
                    => o.post.nIn = fa[1].n + 1
             /\ (Len(fa) >= 1 /\ o.post.ep = o.pre.ep) => o.post.nIn > fa[Len(fa)].n
-      [] c = "monotone" ->          \* never backwards except through a reset
-            o.post.ep = o.pre.ep => o.post.nIn >= o.pre.nIn
+      [] c = "monotone" ->          \* never backwards except through an explicit reset (configured, or negotiated by a
+                                    \* Logon carrying ResetSeqNumFlag=Y, received or sent)
+            /\ o.post.ep = o.pre.ep => o.post.nIn >= o.pre.nIn
+            /\ o.post.ep # o.pre.ep =>
+                  \/ o.cfg.resetOnLogon \/ o.cfg.resetOnLogout \/ o.cfg.resetOnDisconnect
+                  \/ (o.cfg.schedule /\ o.ev.k = "TimeTick")
+                  \/ (IsIn(o) /\ o.ev.m.t = "A" /\ o.ev.m.rsf = "Y")
+                  \/ (\E i \in DOMAIN o.out : o.out[i].t = "A" /\ o.out[i].x = "Y")
+                  \/ (\E i \in DOMAIN o.cb : o.cb[i].k = "ToAdmin" /\ o.cb[i].t = "A")
 
 C01_Names == {"atExpected", "onceInOrder", "advanceByOne", "monotone"}
 C01_Fails(aux, o) == {c \in C01_Names : ~C01_Clause(c, aux, o)}
@@ -145,7 +152,14 @@ C04_Clause(c, aux, o) ==
                 ~(o.post.nIn \in pre.stash /\ pre.stasht[o.post.nIn] \in {"D", "0", "1", "3"}
                   /\ ~(IsIn(o) /\ o.ev.m.seqc = "ok" /\ o.ev.m.seq = o.post.nIn))
 
-C04_Names == {"requestOnGap", "requestOnLogonGap", "noExtraRequest", "keepsEarly", "nothingKeptIsLost", "drainDelivers"}
+      [] c = "recoverySurvivesTimer" ->
+            \* a timer event does not end a recovery in progress (short of disconnecting): the kept messages and
+            \* the requested range are still there afterwards
+            (pre.st \in Recovering /\ o.ev.k = "Timeout" /\ o.post.st \in LoggedOnSt /\ o.post.ep = pre.ep) =>
+                (o.post.st \in Recovering /\ o.post.stash = pre.stash /\ o.post.rrEnd = pre.rrEnd)
+
+C04_Names == {"requestOnGap", "requestOnLogonGap", "noExtraRequest", "keepsEarly", "nothingKeptIsLost", "drainDelivers",
+              "recoverySurvivesTimer"}
 C04_Fails(aux, o) == {c \in C04_Names : ~C04_Clause(c, aux, o)}
 C04_Step(aux, o) == C04_Fails(aux, o) = {}
 
@@ -374,6 +388,9 @@ C20_Clause(c, aux, o) ==
             /\ \A i \in DOMAIN o.tm : o.tm[i][1] = "hb" => (o.tm[i][2] = post.hb * 1000 \/ o.tm[i][2] = pre.hb * 1000)
             /\ \A i \in DOMAIN o.tm : o.tm[i][1] = "peer" => (o.tm[i][2] = post.hb * 1200 \/ o.tm[i][2] = pre.hb * 1200)
             /\ (IsIn(o) /\ pre.conn /\ pre.st \in LoggedOnSt /\ pre.inbuf = 0) => \E i \in DOMAIN o.tm : o.tm[i][1] = "peer"
+            \* a Logon that leaves the session logged on (in sequence, or opening a gap recovery) starts the watch
+            /\ (IsIn(o) /\ m.t = "A" /\ pre.conn /\ pre.st = "logon" /\ post.st \in LoggedOnSt /\ post.conn /\ pre.inbuf = 0) =>
+                    \E i \in DOMAIN o.tm : o.tm[i] = <<"peer", post.hb * 1200>>
       [] c = "acceptorInterval" ->
             (IsIn(o) /\ m.t = "A" /\ Clean(m) /\ m.app = "ok" /\ pre.st = "logon" /\ o.cfg.role = "acc" /\ post.st \in LoggedOnSt) =>
                 /\ post.hb = IF o.cfg.hbOverride THEN o.cfg.hbCfg ELSE m.hb
